@@ -75,6 +75,11 @@ type ExprOpts struct {
 	NoHeredoc   bool
 	NoNullLit   bool
 	HostileLits bool
+	NoStrip     bool // no strip markers in templates
+	// HeredocLines: template literals are built from whole indented lines and line
+	// fragments, so that sequences land at the start, in the middle and at the end of lines
+	// with differing indentation (heredoc / flush-heredoc analysis).
+	HeredocLines bool
 	// AvoidKeys: scope paths through map keys / attribute names containing one of these
 	// substrings are not used (so that the text never appears in generated source).
 	AvoidKeys []string
@@ -459,7 +464,17 @@ func (g *EG) numLit() ast.Node {
 var litPieces = []string{"a", "b", "foo", "x", " ", "  ", "\u00a0", "\n", "\n  ", "\t", "-", "1", "$", "%", "${", "%{", "$${", "~", "\"", "\\", "\u00e9", "e\u0301", "\U0001F600", "\u2028", "}", "{", "#", "//", "\r\n", "\u0085"}
 var tamePieces = []string{"a", "b", "foo", "x", " ", "  ", "\n", "-", "1", "$", "%", "~", "}", "\n  "}
 
+var heredocPieces = []string{"\n", "\n", "  a\n", "    b\n", " c\n", "d\n", "      e f\n", "  ", "    ", " ", "x", "y z", "  q", "\n  ", "\n    r", "\n\n", "\t t\n", "  u  \n"}
+
 func (g *EG) litText() string {
+	if g.o.HeredocLines {
+		n := 1 + g.intn(2, "nlit")
+		var sb strings.Builder
+		for i := 0; i < n; i++ {
+			sb.WriteString(rapid.SampledFrom(heredocPieces).Draw(g.t, "linepiece"))
+		}
+		return sb.String()
+	}
 	n := g.intn(3, "nlit")
 	pieces := tamePieces
 	if g.o.HostileLits {
@@ -1100,10 +1115,33 @@ func (g *EG) template(depth int) ast.Node {
 	return t
 }
 
+// HeredocTemplate draws a template in heredoc or flush-heredoc form (quoted when the
+// parts cannot be written raw).
+func (g *EG) HeredocTemplate() ast.Template {
+	t := ast.Template{Parts: g.tparts(0, 0)}
+	t.Form = ast.Heredoc
+	if g.intn(2, "flush") > 0 {
+		t.Form = ast.FlushHeredoc
+	}
+	if n := len(t.Parts); n > 0 {
+		if l, ok := t.Parts[n-1].(ast.TLit); ok {
+			if !strings.HasSuffix(l.Text, "\n") {
+				t.Parts[n-1] = ast.TLit{Text: l.Text + "\n"}
+			}
+		} else {
+			t.Parts = append(t.Parts, ast.TLit{Text: "\n"})
+		}
+	}
+	if !render.CanHeredoc(t) {
+		t.Form = ast.Quoted
+	}
+	return t
+}
+
 // Parts generates stand-alone template parts (for ParseTemplate).
 func (g *EG) Parts() []ast.TPart { return g.tparts(0, 0) }
 
-func (g *EG) stripMark() bool { return g.chance(4, "strip") }
+func (g *EG) stripMark() bool { return !g.o.NoStrip && g.chance(4, "strip") }
 
 func (g *EG) tparts(depth, tdepth int) []ast.TPart {
 	n := 1 + g.intn(3, "nparts")
